@@ -13,6 +13,9 @@ def content(rng, tag):
         for k in rng.sample([b"k1", b"k2", b"k4"], rng.randrange(0, 3)):
             lines.append(k + b" = " + tag + b"-" + sec + b"-" + k)
     if rng.random() < 0.15: lines.insert(0, b"# " + tag)
+    if rng.random() < 0.2:
+        # shapes on which JOIN_SAME_ENTRIES / PYTHON_STYLE matter: a key defined again, indented lines with a delimiter or a comment character
+        lines += [b"[R]", b"rep=" + tag + b"-1", b"rep=" + tag + b"-2", b"py=" + tag, b"  more = x", b"\tlast # tail"]
     return b"\n".join(lines) + (b"\n" if lines else b"")
 
 def fsfile(p, c, uid=0, gid=0): return "fsfile %s %s %d %d" % (enc(p), enc(c), uid, gid)
